@@ -8,7 +8,7 @@ CASE_TYPE = "c20_case"
 VERDICT = "c20_verdict"
 EXPLAIN = "c20_explain"
 CASES_PER_FILE = 150
-TIERS = {"quick": {"n": 1200}, "thorough": {"n": 40000}}
+TIERS = {"quick": {"n": 1200}, "thorough": {"n": 25000}}
 RULE = ("histories of add/update(iterable|mapping|kwargs|source+kwargs) on a ThresholdCounter with w=int(1/threshold) in 1..12 or 60, "
         "observed after every operation; non-trivial = at least one compaction removed a key and some key was "
         "re-added after removal; distinct = distinct canonical history hash")
